@@ -16,6 +16,7 @@
   kernel requests (complex arithmetic of the back-transformations, bit-exact):
      ckern sqrt <re> <im>                      -> std::sqrt(std::complex<double>)
      ckern roots <sigmar> <sigmai> <re> <im>   -> root1, root2 of GenEigsComplexShiftSolver::sort_ritzpair
+     ckern root2 <sigmar> <sigmai> <re> <im>   -> root2 only (nu = 0: root1 = 0.5/nu is inf/NaN and never selected)
      ckern rsback <sigma> <re> <im>            -> Scalar(1) / nu + sigma
      ckern probeshift <sigmar>                 -> the probe shift
 -/
@@ -123,6 +124,10 @@ def handle : List String → Option String
       let sr ← ofBits? sr; let si ← ofBits? si; let re ← ofBits? re; let im ← ofBits? im
       let r := csRoots sr si (re, im)
       pure (joinSp [fbits r.1.1, fbits r.1.2, fbits r.2.1, fbits r.2.2])
+  | ["ckern", "root2", sr, si, re, im] => do
+      let sr ← ofBits? sr; let si ← ofBits? si; let re ← ofBits? re; let im ← ofBits? im
+      let r := csRoots sr si (re, im)
+      pure (joinSp [fbits r.2.1, fbits r.2.2])
   | ["ckern", "rsback", sg, re, im] => do
       let sg ← ofBits? sg; let re ← ofBits? re; let im ← ofBits? im
       let r := realShiftBack sg (re, im)
